@@ -115,6 +115,14 @@ _strata0 = strata
 def strata(tier):  # noqa: F811
     yield from _strata0(tier)
     yield from corpus_cases(tier, "C07")
+    # documents with shared containers (and the empty schema: validation of ANY document never raises)
+    tr = PC.L("value", "truthy")
+    for rules in ([], [{"path": PC.mkpath([]), "cond": tr, "cast": None}],
+                  [{"path": PC.mkpath([{"p": "mol"}, {"p": "mol"}]), "cond": PC.L("value", "is_instance", {"$type": "int"}), "cast": [["str", "int"]]}],
+                  [{"path": PC.mkpath([{"p": "map"}, {"p": "prim", "v": "t"}, {"p": "list"}]), "cond": PC.L("value", "equal_to", True), "cast": [["str", "bool"]]},
+                   {"path": PC.mkpath([{"p": "prim", "v": "rows"}, {"p": "list"}, {"p": "list"}]), "cond": PC.L("value", "less_than", 3), "cast": None}]):
+        for doc in (G.SHARED_DOC, [G.SHARED_DOC["a"], G.SHARED_DOC["a"]], {"x": [[1], [1]], "y": {"p": {}, "q": {}}}):
+            yield {"rules": rules, "doc": doc, "alias": True}
 
 
 def budget(tier):
@@ -170,6 +178,9 @@ def handled_total():
 def run(case, ctx):
     import valida
     rules, doc = case["rules"], case["doc"]
+    if case.get("alias") or len(repr(doc)) % 9 == 0:
+        doc = G.alias_containers(doc)  # equal containers are one shared object (a DAG, as YAML aliases give)
+        ctx.count("documents-with-shared-containers")
     ok, objs = call(lambda: [build.rule_obj(r) for r in rules])
     if not ok:
         ctx.violate(f"C07/construct:{objs.type}/{trigger(rules)}", f"{objs!r}; rules={rules}")
